@@ -138,6 +138,10 @@ Definition tr_append (t : transcript) (l m : bytes) : transcript := (fst t, snd 
 Definition challenge : Type := (transcript * bytes)%type.
 Definition tr_challenge {B} (t : transcript) (l : bytes) (buf : B) : challenge := (t, l).
 
+(* ---- hkdf::HkdfExtract: (salt, input keying material so far); no salt is the empty key ---- *)
+Definition hkdf_new (salt : option bytes) : bytes * bytes :=
+  (match salt with Some s => s | None => [] end, []).
+
 (* ---- vsss-rs share containers ([u8; L]: identifier byte, then L-1 value bytes) ---- *)
 Definition share_empty (cap : nat) : share := mkshare 0 (repeatN 0 cap).
 Definition share_set_identifier (s : share) (id : N) : share := mkshare id (sval s).
